@@ -688,7 +688,7 @@ def run(ctx, replay=None):
         return
 
     # ---------------- histories
-    nh = ctx.scale(22, 260)
+    nh = ctx.scale(40, 300)
     budget_h = ctx.scale(28, 300)
     epoch = []
     for it in range(nh):
@@ -753,7 +753,7 @@ def run(ctx, replay=None):
 
     # ---------------- config crossing
     npts = ctx.scale(8, 64)
-    nprog = ctx.scale(15, 36)
+    nprog = ctx.scale(20, 36)
     budget_c = ctx.scale(30, 280)
     t_c = time.time()
     pts = [{}] + [rand_point(rng) for _ in range(npts - 1)]
